@@ -243,7 +243,7 @@ func genJoinAccept(r *core.RNG) *lorawan.JoinAcceptPayload {
 	ja := &lorawan.JoinAcceptPayload{}
 	switch r.Intn(5) {
 	case 0:
-		ja.JoinNonce = lorawan.JoinNonce([]uint32{0, 1, 1<<24 - 1, 1<<24 - 2, 0x010203}[r.Intn(5)])
+		ja.JoinNonce = lorawan.JoinNonce([]uint32{0, 1, 1<<24 - 1, 1<<24 - 2, 0x010203, 0x000100, 0x010000, 0x00ffff, 0x0000ff}[r.Intn(9)])
 	default:
 		ja.JoinNonce = lorawan.JoinNonce(r.Intn(1 << 24))
 	}
